@@ -200,6 +200,9 @@ class Interp(Engine):
                 return
             if getattr(v, "frozen", False) and not self.spec_mode:
                 self.prove(self.site("frame-attr-write"), False, "frame", f"write to field {name} of an input object")
+            rec = getattr(self, "record_attr_store", None)  # verify.Verifier: which EXTRA attributes a carrier keeps on its inputs (option extra_attrs_arbitrary)
+            if rec is not None and not self.spec_mode:
+                rec(v, name, val)
             v.fields[name] = val
             return
         h = getattr(self, "ref_attr_hook", None)
